@@ -137,7 +137,13 @@ def _objfill(shape, val):
     return a.view(SymArray)
 
 
+def _dt(dtype):
+    """builtins.float shadowed by symx.symfloat stands for float64."""
+    return float if dtype is C.symfloat else dtype
+
+
 def _is_numeric_dtype(dtype):
+    dtype = _dt(dtype)
     if dtype is None:
         return True
     if dtype is object:
@@ -227,7 +233,7 @@ def array(obj, dtype=None, *a, **kw):
         kw.pop('ndmin', None)
         out = _np.array(obj, dtype=object, *a, **kw)
         return out.view(SymArray)
-    return _np.array(obj, dtype=dtype, *a, **kw)
+    return _np.array(obj, dtype=_dt(dtype), *a, **kw)
 
 
 def asarray(obj, dtype=None, *a, **kw):
@@ -237,7 +243,7 @@ def asarray(obj, dtype=None, *a, **kw):
     if has_sym(obj):
         kw.pop('order', None)
         return _np.asarray(obj, dtype=object).view(SymArray)
-    return _np.asarray(obj, dtype=dtype, *a, **kw)
+    return _np.asarray(obj, dtype=_dt(dtype), *a, **kw)
 
 
 def asfortranarray(obj, dtype=None, **kw):
@@ -505,6 +511,10 @@ def sum_(a, *args, **kw):
         out = _np.empty((), dtype=object)
         out[()] = tot
         return xarray.DataArray(out)
+    if isinstance(a, _np.ndarray) and a.dtype == object and not args and \
+            not kw and a.size and any(isinstance(v, B) for v in a.flat):
+        # counting symbolic Booleans: every element is decided (forks)
+        return int(sum(1 for v in a.flat if bool(v)))
     return _np.sum(a, *args, **kw)
 
 
@@ -596,7 +606,18 @@ def vstack(tup, *a, **k):
     return _wrap(r)
 
 
+def _axis0(a, red, kw):
+    """reduction along axis 0 of a (nested) list of symbolic arrays."""
+    arr = _np.array([_np.asarray(x, dtype=object) for x in a], dtype=object)
+    out = _np.empty(arr.shape[1:], dtype=object)
+    for idx in _np.ndindex(*arr.shape[1:]):
+        out[idx] = red(arr[(slice(None),)+idx])
+    return out.view(SymArray)
+
+
 def maximum_reduce(a, *args, **kw):
+    if has_sym(a) and not args and kw == {'axis': 0}:
+        return _axis0(a, maximum_reduce, kw)
     if has_sym(a) and not args and not kw:
         vals = list(_np.asarray(a, dtype=object).flat)
         m = vals[0]
@@ -608,6 +629,8 @@ def maximum_reduce(a, *args, **kw):
 
 
 def minimum_reduce(a, *args, **kw):
+    if has_sym(a) and not args and kw == {'axis': 0}:
+        return _axis0(a, minimum_reduce, kw)
     if has_sym(a) and not args and not kw:
         vals = list(_np.asarray(a, dtype=object).flat)
         m = vals[0]
